@@ -101,7 +101,7 @@ func monitor(c hxlib.Case, outs []string) (vs []hxlib.Violation) {
 	items := map[string]*monItem{}
 	var mods [][]string // declared modules: name, prep, start, stop
 	subjDown := false   // the subject module (A) has been stopped and not started again
-	mgmt, startOK := false, false
+	mgmt, startOK, subjOff := false, false, false
 	firstCnt, lastSettle, lastSettleOthers := "", "", ""
 	firstPanicKind := "none"
 	workStarted := false
@@ -150,7 +150,7 @@ func monitor(c hxlib.Case, outs []string) (vs []hxlib.Violation) {
 		kindOfOp := op
 		if (op == "finish" || op == "requeue") && len(f) > 1 && items[f[1]] != nil {
 			kindOfOp = items[f[1]].kind
-		} else if op == "spawn" && len(f) > 2 {
+		} else if (op == "spawn" || op == "prespawn") && len(f) > 2 {
 			kindOfOp = f[2]
 		}
 		switch {
@@ -227,8 +227,16 @@ func monitor(c hxlib.Case, outs []string) (vs []hxlib.Violation) {
 			}
 		case "mgmt":
 			mgmt = true
+			for _, a := range f[1:] {
+				if a == "A=off" {
+					subjOff = true
+				}
+			}
 		case "start":
 			startOK = fl["ret"] == "nil"
+			// work launched before the start (`prespawn`) can end while the subject module is not running: "service
+			// workers are restarted" speaks of a running module. (Without `prespawn` nothing is spawned in that state.)
+			subjDown = !startOK || subjOff
 			want := false
 			prepPanic := false
 			if !mgmt {
@@ -338,6 +346,18 @@ func monitor(c hxlib.Case, outs []string) (vs []hxlib.Violation) {
 			workStarted = true
 			it.held = strings.HasPrefix(o, "spawn ok")
 			if strings.HasPrefix(o, "spawn noentry") {
+				add("C06:item-did-not-start:"+it.kind, "the managed function was never entered: "+o)
+			}
+		case "prespawn":
+			if len(f) != 5 || !strings.HasPrefix(o, "prespawn ") {
+				continue
+			}
+			it := &monItem{kind: f[2], outs: strings.Split(f[3], ",")}
+			items[f[1]] = it
+			workStarted = true
+			subjDown = true // until the module has been started
+			it.held = o == "prespawn ok"
+			if !it.held {
 				add("C06:item-did-not-start:"+it.kind, "the managed function was never entered: "+o)
 			}
 		case "requeue":
